@@ -55,7 +55,23 @@ VH_MAIN_BEGIN
     const int fits = rn < dmax && rn <= RP_CAP;
     (void)fits; (void)usable; (void)dnull; (void)arg_viol;
 
-#if defined(PROP_C11) && !defined(TO_STREAM)
+#if defined(PROP_C11) && defined(FLOAT_SKEL) && !defined(TO_STREAM)
+    /* floating conversions: requested layout, value within one unit of the last printed digit, count returned, or failure
+       only when the longest admissible rendering does not fit */
+    if (usable) {
+        if (rc >= 0) {
+            CHECK("C11", (size_t)rc < dmax, "float: returned count does not fit in dmax");
+            if ((size_t)rc < dmax) {
+                CHECK("C11", dest[rc] == 0, "float: result not terminated after the last character");
+                CHECK("C11", float_ok(dest, (unsigned)rc), "float: wrong layout, or printed value not within one unit of the last digit");
+            }
+        } else
+            CHECK("C11", float_maxlen() >= dmax, "float: text fits in dmax but a failure is returned");
+    }
+#elif defined(PROP_C11) && defined(FLOAT_SKEL)
+    CHECK("C11", rc >= 0 && (unsigned)rc == vh_cap_n, "float, stream variant: return value differs from the characters emitted");
+    if (rc >= 0 && vh_cap_n <= DCAP) CHECK("C11", float_ok(vh_cap, vh_cap_n), "float, stream variant: wrong layout or value");
+#elif defined(PROP_C11) && !defined(TO_STREAM)
     if (usable && !arg_viol && rn <= RP_CAP) {
         if (fits) {
             CHECK("C11", rc == (int)rn, "return value is not the number of characters C's snprintf produces");
@@ -69,7 +85,7 @@ VH_MAIN_BEGIN
     }
     if (arg_viol && usable) CHECK("C11", rc < 0, "invalid argument/format accepted");
 #endif
-#if defined(PROP_C11) && defined(TO_STREAM)
+#if defined(PROP_C11) && defined(TO_STREAM) && !defined(FLOAT_SKEL)
     if (!arg_viol && rn <= DCAP) {
         CHECK("C11", rc == (int)rn, "stream variant: return value differs from the character count of C's printf");
         CHECK("C11", vh_cap_n == rn, "stream variant: number of characters emitted differs");
